@@ -83,6 +83,8 @@ fn locality(t: &Target, b: &[u8], g: &Got, _r: &Ref, sink: &mut Sink) {
 
 fn main() {
     let run = Run::from_args("C06", "exploration");
+    // relational oracle only: value disagreements with the reference walkers are other properties' business
+    NO_REFERENCE_VERDICT.store(true, std::sync::atomic::Ordering::Relaxed);
     let mut all: Vec<&'static Target> = vec![
         &PLAINTEXT, &ENCRYPTED, &RAW_RECORD, &DTLS_RECORD, &MSG_HANDSHAKE, &DTLS_HANDSHAKE, &EXTENSION, &EXT_CLIENT, &EXT_SERVER,
         &EXT_UNKNOWN, &SCT, &SCT_LIST, &DH_PARAMS, &EC_PARAMETERS, &ECDH_PARAMS, &EC_POINT, &SIGNED, &SIGNED_OLD, &RECORD_HEADER,
@@ -155,13 +157,22 @@ fn main() {
     // whose comparison includes the region-relative slice positions
     let mut hist_states = 0;
     let mut hist_trans = 0;
-    let e0 = dx::explore(&run, &dx::s0(run.tier.pick(4, 5)), &mut sink);
+    let mut hsink = Sink::new();
+    let e0 = dx::explore(&run, &dx::s0(run.tier.pick(4, 5)), &mut hsink);
     hist_states += e0.states;
     hist_trans += e0.transitions;
     for p in dx::s1_catalogue(thorough) {
-        let e = dx::explore(&run, &dx::s1(p), &mut sink);
+        let e = dx::explore(&run, &dx::s1(p), &mut hsink);
         hist_states += e.states;
         hist_trans += e.transitions;
+    }
+    // only provenance failures are C06's business (a slice outside the region it must borrow from, or
+    // a remainder that is not the tail of that region); value / state disagreements are C07's verdict
+    sink.evals += hsink.evals;
+    for v in hsink.viol {
+        if v.what.contains("OUTSIDE") || v.what.contains("remainder") {
+            sink.violation(v.key, v.what, v.replay);
+        }
     }
 
     let names: Vec<&'static str> = all.iter().map(|t| t.name).filter(|n| !n.ends_with("_header")).collect();
